@@ -96,6 +96,18 @@ impl<V: Copy> HashMap<u16, V> {
     pub fn remove(&mut self, k: &u16) -> Option<V> { self.slots[*k as usize].take() }
 }
 
+/// HashSet<u16> with keys < IDS as a bitmap (an edit may keep a set of ids next to the queue map)
+pub struct HashSet<K> { pub present: [bool; IDS], _k: std::marker::PhantomData<K> }
+impl<K> Default for HashSet<K> { fn default() -> Self { HashSet { present: [false; IDS], _k: std::marker::PhantomData } } }
+impl HashSet<u16> {
+    pub fn insert(&mut self, k: u16) -> bool { let was = self.present[k as usize]; self.present[k as usize] = true; !was }
+    pub fn contains(&self, k: &u16) -> bool { self.present[*k as usize] }
+    pub fn remove(&mut self, k: &u16) -> bool { let was = self.present[*k as usize]; self.present[*k as usize] = false; was }
+    pub fn clear(&mut self) { self.present = [false; IDS]; }
+    pub fn len(&self) -> usize { let mut n = 0; let mut i = 0; while i < IDS { if self.present[i] { n += 1; } i += 1; } n }
+    pub fn is_empty(&self) -> bool { self.len() == 0 }
+}
+
 pub const DQ: usize = 6;
 pub struct VecDeque<T: Copy> { pub items: [Option<T>; DQ], pub len: usize }
 impl<T: Copy> Default for VecDeque<T> { fn default() -> Self { VecDeque { items: [None; DQ], len: 0 } } }
@@ -159,7 +171,8 @@ static mut SMALL: bool = false;
 
 #[cfg(kani)]
 fn run(steps: usize) {
-    let mut f: Fragments<TestFrame> = Fragments { timeout: Duration(TIMEOUT), queue: Default::default(), timer: Default::default(), _marker: std::marker::PhantomData };
+    // built by the real constructor, so that a field added by an edit is initialised the way the code does it
+    let mut f: Fragments<TestFrame> = Fragments::new(Duration(TIMEOUT));
     let mut model: [Option<RefQ>; IDS] = [None; IDS];
     let mut s = 0;
     while s < steps {
